@@ -243,6 +243,8 @@ def conv_into(ip, st, ci):
         return ("iobuf", tg, tg, ip.sizeof(crate(ci), et))
     if v[0] == "bytes" and ip.is_bytes_ty(crate(ci), dest_ty(ip, ci)):
         return v
+    if v[0] == "bytes" and dt["k"] == "uint" and dt["name"] not in ("usize",) and T.blen(v[1]) == ONE:
+        v = vint(T.ifrombytes("le", 8, v[1], st.F))      # a u8 held as one byte
     if v[0] == "int" and dt["k"] == "uint" and dt["name"] not in ("usize",):
         # lossless widening From<uN> for uM: the same uninterpreted function as an `as` cast
         w = int(dt["name"][1:])
@@ -446,8 +448,20 @@ def _as_iter(ip, st, ci, v, argop):
     if v[0] == "iter":
         return v
     if v[0] == "range":
+        if v[1][0] == "int" and v[2][0] == "int":
+            # a range over a fixed-width integer type: elements start + i (no wrap inside the range)
+            a, b = v[1][1], v[2][1]
+            if a[3] or b[3]:
+                raise Undecided("integer range with symbolic bounds")
+            return ("iter", "irange", a[1], a, lin(max(b[2] - a[2], 0)))
         lo, hi = v[1][1], v[2][1]
         return ("iter", "range", lo, hi)
+    if v[0] == "struct" and v[1].endswith("RangeFrom"):
+        a = v[2]["start"]
+        if a[0] == "int":
+            return ("iter", "irange", a[1][1], a[1], None)      # unbounded (until overflow)
+        if a[0] == "size":
+            return ("iter", "urange", a[1])
     if v[0] == "ref":
         pv = ip.load(st, v[1])
         if pv[0] == "iter":
@@ -597,6 +611,30 @@ def chunks_exact_mut(ip, st, ci):
     oblig(st, ci, "nonzero:chunks_exact", ok, "%r != 0" % (chunk,))
     k, d = decompose(st, total, chunk)
     return ("iter", "chunks", tg, total, chunk, k, d)
+
+
+@prim("core::slice::<impl [T]>::rchunks_exact_mut", "core::slice::<impl [T]>::rchunks_exact")
+def rchunks_exact_mut(ip, st, ci):
+    """chunks counted from the END of the slice; the remainder is at the front."""
+    tg = tg_of(ci["args"][0])
+    n = ci["args"][1]
+    esz = ip.sizeof(crate(ci), fn_targs(ci)[0])
+    total = ip.tlen(st, tg)
+    chunk = n[1] * esz
+    ok = st.F.prove_ge(chunk - 1)
+    oblig(st, ci, "nonzero:rchunks_exact", ok, "%r != 0" % (chunk,))
+    k, d = decompose(st, total, chunk)
+    return ("iter", "rchunks", tg, total, chunk, k, d)
+
+
+@prim("RChunksExactMut::into_remainder", "RChunksExact::remainder")
+def rchunks_into_remainder(ip, st, ci):
+    it = ci["args"][0]
+    if it[0] == "ref":
+        it = ip.load(st, it[1])
+    if it[0] != "iter" or it[1] != "rchunks":
+        raise Undecided("into_remainder of %s" % (it[:2],))
+    return vref(ip.br(it[2], ZERO, it[6]))
 
 
 @prim("ChunksExactMut::into_remainder", "ChunksExact::remainder")
@@ -1380,9 +1418,22 @@ def iter_count(ip, st, it):
         return it[5]
     if k == "once":
         return ONE
+    if k == "irange":
+        if it[4] is None:
+            raise Undecided("unbounded integer range")
+        return it[4]
+    if k == "urange":
+        raise Undecided("unbounded range")
+    if k == "rchunks":
+        return it[5]
     if k == "win":
         return it[4]
     if k == "zip":
+        # an unbounded side never ends the zip
+        if _unbounded(ip, st, it[2]):
+            return iter_count(ip, st, it[3])
+        if _unbounded(ip, st, it[3]):
+            return iter_count(ip, st, it[2])
         a = iter_count(ip, st, it[2])
         b = iter_count(ip, st, it[3])
         if st.F.le(a, b):
@@ -1413,10 +1464,27 @@ def iter_count(ip, st, it):
     raise Undecided("iterator kind %s" % k)
 
 
+def _unbounded(ip, st, it):
+    k = it[1]
+    if k == "urange" or (k == "irange" and it[4] is None):
+        return True
+    if k in ("enumerate", "copied", "skip"):
+        return _unbounded(ip, st, it[2])
+    if k == "ref":
+        return _unbounded(ip, st, ip.load(st, it[2]))
+    return False
+
+
 def iter_elem_multi(ip, st, it, i):
     """[(state, element i)] — adaptors such as chain need a case split on the index."""
     k = it[1]
     i = lin(i)
+    if k == "irange":
+        return [(st, vint(T.iadd(it[3], T.isize(it[2], i))))]
+    if k == "urange":
+        return [(st, vsize(it[2] + i))]
+    if k == "rchunks":
+        return [(st, vref(ip.br(it[2], it[3] - (i + 1) * it[4], it[4])))]
     if k == "range":
         return [(st, vsize(it[2] + i))]
     if k == "slice":
